@@ -95,8 +95,9 @@ type ccase struct {
 	SlowClose bool   `json:"slow_close,omitempty"` // the proxy-side connections block inside Close() until the harness lets them
 	Hook      string `json:"hook,omitempty"`       // hook family: placement
 	Transport string `json:"transport,omitempty"`
-	Attrs     []attr `json:"attrs,omitempty"`      // gates: shape of the exchange on each connection
-	TimeoutMS int    `json:"timeout_ms,omitempty"` // Proxy.SetTimeout; 0: 10 min. If set, the parked exchanges are held for longer than it
+	Attrs     []attr `json:"attrs,omitempty"`          // gates: shape of the exchange on each connection
+	RealRT    bool   `json:"real_transport,omitempty"` // the proxy keeps its own http.Transport; upstream connections are dialled (cold) to a harness origin server
+	TimeoutMS int    `json:"timeout_ms,omitempty"`     // Proxy.SetTimeout; 0: 10 min. If set, the parked exchanges are held for longer than it
 }
 
 // attr is the shape of the exchange a connection carries.
@@ -186,6 +187,134 @@ type world struct {
 	closeGateOnce   sync.Once
 	bySv            map[*vh.PipeConn]*cconn
 	bodyErr         map[int]string // what went wrong with an exchange's request body at the origin
+	rec             *recListener   // loopback TCP: the accepted *net.TCPConn, handed to the proxy unchanged
+	originConns     []net.Conn     // real transport: origin-side ends of the upstream connections
+	upstreamDials   int32
+}
+
+// recListener hands the accepted connections to the proxy unchanged (bare
+// *net.TCPConn) and remembers them, so that the harness can ask afterwards
+// whether the proxy has closed them.
+type recListener struct {
+	net.Listener
+	mu    sync.Mutex
+	conns map[string]net.Conn // by remote address
+}
+
+func (l *recListener) Accept() (net.Conn, error) {
+	c, err := l.Listener.Accept()
+	if err == nil {
+		l.mu.Lock()
+		l.conns[c.RemoteAddr().String()] = c
+		l.mu.Unlock()
+	}
+	return c, err
+}
+
+// open reports whether the accepted connection whose peer is addr is still
+// open in this process (not yet closed by the proxy).
+func (l *recListener) open(addr string) bool {
+	l.mu.Lock()
+	c := l.conns[addr]
+	l.mu.Unlock()
+	tc, ok := c.(*net.TCPConn)
+	if !ok {
+		return false
+	}
+	rc, err := tc.SyscallConn()
+	if err != nil {
+		return false
+	}
+	return rc.Control(func(uintptr) {}) == nil
+}
+
+// ---------------------------------------------------------------------------
+// real transport: a harness origin server behind the proxy's own http.Transport
+
+func (w *world) dialOrigin(network, addr string) (net.Conn, error) {
+	atomic.AddInt32(&w.upstreamDials, 1)
+	w.ev("upstream-dial", -1, w.p.Closing())
+	px, og := vh.Pipe(65536, "10.2.2.2:50000", addr)
+	w.mu.Lock()
+	w.originConns = append(w.originConns, og, px)
+	w.mu.Unlock()
+	go w.serveOrigin(og)
+	return px, nil
+}
+
+// serveOrigin answers the requests on one upstream connection like RoundTrip does.
+func (w *world) serveOrigin(conn net.Conn) {
+	defer conn.Close()
+	br := bufio.NewReaderSize(conn, 4096)
+	for {
+		h, err := tunx.ReadHead(br)
+		if err != nil {
+			return
+		}
+		id := -1
+		if v := h.Get("X-Conn"); len(v) == 1 {
+			id, _ = strconv.Atoi(v[0])
+		}
+		w.ev("rt-enter", id, false)
+		if g := w.gate(id, ptRoundTrip); g != nil {
+			<-g
+		}
+		w.mu.Lock()
+		n := w.bodyLen[id]
+		want := w.reqBody[id]
+		fail := w.rtFail[id]
+		stall := w.stall[id]
+		w.mu.Unlock()
+		if len(h.Get("Expect")) > 0 {
+			conn.Write([]byte("HTTP/1.1 100 Continue\r\n\r\n"))
+		}
+		cl := 0
+		if v := h.Get("Content-Length"); len(v) == 1 {
+			cl, _ = strconv.Atoi(v[0])
+		}
+		if cl > 0 || want > 0 {
+			got := make([]byte, cl)
+			m, err := io.ReadFull(countingReader{br, new(int64), &w.bytesActivity}, got)
+			if err != nil {
+				w.ev("rt-body-error", id, false)
+				w.mu.Lock()
+				w.bodyErr[id] = fmt.Sprintf("origin read %d of %d request body bytes: %v", m, want, err)
+				w.mu.Unlock()
+				return
+			}
+			if !bytes.Equal(got, vh.Stamp(uint32(0x080000|id&0xffff), want)) {
+				w.ev("rt-body-mismatch", id, false)
+				w.mu.Lock()
+				w.bodyErr[id] = fmt.Sprintf("origin received %d request body bytes, want %d stamped bytes", len(got), want)
+				w.mu.Unlock()
+			}
+		}
+		if fail {
+			w.ev("rt-exit", id, true)
+			return // the origin hangs up without answering
+		}
+		payload := vh.Stamp(uint32(0x070000|id&0xffff), n)
+		head := "HTTP/1.1 200 OK\r\nX-Conn: " + strconv.Itoa(id) + "\r\nContent-Type: application/octet-stream\r\nContent-Length: " + strconv.Itoa(n) + "\r\n\r\n"
+		w.ev("rt-exit", id, false)
+		if stall {
+			if _, err := conn.Write(append([]byte(head), payload[:n/2]...)); err != nil {
+				return
+			}
+			// the proxy's response modifier runs once the head is there; the
+			// handler is inside res.Write when the stall is noticed
+			w.ev("body-stall", id, false)
+			if g := w.gate(id, ptWriting); g != nil {
+				<-g
+			}
+			if _, err := conn.Write(payload[n/2:]); err != nil {
+				return
+			}
+			continue
+		}
+		if _, err := conn.Write(append([]byte(head), payload...)); err != nil {
+			return
+		}
+	}
 }
 
 // slowConn is an accepted connection whose Close reports its entry and then
@@ -602,7 +731,11 @@ func newWorld(r *vh.Run, c ccase, budget *tunx.Budget, tcp bool) (*world, error)
 	if c.TimeoutMS > 0 {
 		p.SetTimeout(time.Duration(c.TimeoutMS) * time.Millisecond)
 	}
-	p.SetRoundTripper(w)
+	if c.RealRT {
+		p.SetDial(w.dialOrigin)
+	} else {
+		p.SetRoundTripper(w)
+	}
 	p.SetRequestModifier(w)
 	p.SetResponseModifier(w)
 	w.p = p
@@ -611,7 +744,8 @@ func newWorld(r *vh.Run, c ccase, budget *tunx.Budget, tcp bool) (*world, error)
 		if err != nil {
 			return nil, err
 		}
-		w.lis = l
+		w.rec = &recListener{Listener: l, conns: map[string]net.Conn{}}
+		w.lis = w.rec
 	} else {
 		w.pl = tunx.NewListener("10.0.0.7:8080")
 		if c.SlowClose {
@@ -738,6 +872,9 @@ func (w *world) startClose() {
 		var open []int
 		for _, c := range pre {
 			if c.sv != nil && atomic.LoadInt32(&c.parked) == 1 && !c.sv.Closed() {
+				open = append(open, c.id)
+			}
+			if c.sv == nil && w.rec != nil && c.conn != nil && atomic.LoadInt32(&c.parked) == 1 && w.rec.open(c.conn.LocalAddr().String()) {
 				open = append(open, c.id)
 			}
 		}
@@ -867,6 +1004,17 @@ func (w *world) finalChecks(cls string) {
 func (w *world) teardown() {
 	verifhook.Set(nil)
 	w.openCloseGate()
+	defer func() {
+		if tr, ok := w.p.GetRoundTripper().(*http.Transport); ok {
+			tr.CloseIdleConnections()
+		}
+		w.mu.Lock()
+		oc := append([]net.Conn(nil), w.originConns...)
+		w.mu.Unlock()
+		for _, c := range oc {
+			c.Close()
+		}
+	}()
 	w.mu.Lock()
 	for _, g := range w.gates {
 		select {
@@ -911,6 +1059,41 @@ func (w *world) park(c *cconn) bool {
 	return ok
 }
 
+// preExchange writes request pre (plus extra, in the same write) on c and
+// consumes its complete response, leaving the connection open.
+func (w *world) preExchange(c *cconn, pre int, extra []byte) bool {
+	c.conn.Write(append([]byte(request(pre)), extra...))
+	br := bufio.NewReaderSize(c.conn, 512)
+	okc := make(chan bool, 1)
+	go func() {
+		h, err := tunx.ReadHead(br)
+		if err != nil || h.Status() != 200 || len(h.Get("Content-Length")) != 1 {
+			okc <- false
+			return
+		}
+		n, _ := strconv.Atoi(h.Get("Content-Length")[0])
+		_, err = io.CopyN(io.Discard, br, int64(n))
+		atomic.AddInt64(&w.bytesActivity, int64(n))
+		okc <- err == nil && br.Buffered() == 0
+	}()
+	var done, good int32
+	go func() {
+		if <-okc {
+			atomic.StoreInt32(&good, 1)
+		}
+		atomic.StoreInt32(&done, 1)
+	}()
+	if !w.setup("keep-alive exchange before the progress point", func() bool { return atomic.LoadInt32(&done) == 1 }) {
+		return false
+	}
+	if atomic.LoadInt32(&good) != 1 {
+		w.r.SetCase(w.c)
+		w.r.Inconclusive("setup: the exchange preceding the progress point did not complete", w.state())
+		return false
+	}
+	return true
+}
+
 func (w *world) park1(c *cconn) bool {
 	id := c.id
 	switch c.point {
@@ -918,33 +1101,7 @@ func (w *world) park1(c *cconn) bool {
 		if w.r.Rng("c07-idle-variant", w.c.Idx*8+id).Intn(2) == 1 {
 			// idle between two requests of a keep-alive connection: complete one exchange first
 			pre := 200 + id
-			c.conn.Write([]byte(request(pre)))
-			br := bufio.NewReaderSize(c.conn, 512)
-			okc := make(chan bool, 1)
-			go func() {
-				h, err := tunx.ReadHead(br)
-				if err != nil || h.Status() != 200 || len(h.Get("Content-Length")) != 1 {
-					okc <- false
-					return
-				}
-				n, _ := strconv.Atoi(h.Get("Content-Length")[0])
-				_, err = io.CopyN(io.Discard, br, int64(n))
-				atomic.AddInt64(&w.bytesActivity, int64(n))
-				okc <- err == nil && br.Buffered() == 0
-			}()
-			var done, good int32
-			go func() {
-				if <-okc {
-					atomic.StoreInt32(&good, 1)
-				}
-				atomic.StoreInt32(&done, 1)
-			}()
-			if !w.setup("keep-alive exchange before going idle", func() bool { return atomic.LoadInt32(&done) == 1 }) {
-				return false
-			}
-			if atomic.LoadInt32(&good) != 1 {
-				w.r.SetCase(w.c)
-				w.r.Inconclusive("setup: the exchange preceding the idle point did not complete", w.state())
+			if !w.preExchange(c, pre, nil) {
 				return false
 			}
 			w.r.Count("idle_points_after_a_keepalive_exchange", 1)
@@ -954,6 +1111,18 @@ func (w *world) park1(c *cconn) bool {
 	case ptMidHead:
 		rq := request(id)
 		k := 5 + (id*7+w.c.Idx)%(len(rq)-10)
+		if c.attr.Pipe {
+			// the partial head is that of a pipelined second request: it arrives in
+			// the same write as a complete first request, whose exchange completes
+			pre := 200 + id
+			if !w.preExchange(c, pre, []byte(rq[:k])) {
+				return false
+			}
+			w.r.Count("mid_head_points_on_a_pipelined_second_request", 1)
+			return w.setup("mid-head of a pipelined second request: first exchange done, proxy reads on", func() bool {
+				return c.sv.Unread() == 0 && c.sv.ReadCalls() >= 2 && w.has("resmod-exit", pre)
+			})
+		}
 		c.conn.Write([]byte(rq[:k]))
 		return w.setup("mid-head: proxy consumed the partial head and reads on", func() bool { return c.sv.Unread() == 0 && c.sv.ReadCalls() >= 2 })
 	}
@@ -1165,7 +1334,7 @@ func runGates(r *vh.Run, c ccase, budget *tunx.Budget) {
 	var ps, os []string
 	for i, p := range c.Points {
 		n := ptName[p]
-		if p >= ptReqMod && attrs[i] != (attr{}) {
+		if attrs[i] != (attr{}) {
 			n += "[" + attrs[i].String() + "]"
 		}
 		ps = append(ps, n)
@@ -1182,6 +1351,10 @@ func runGates(r *vh.Run, c ccase, budget *tunx.Budget) {
 	}
 	if c.TimeoutMS > 0 {
 		sc += ":parked-beyond-timeout"
+	}
+	if c.RealRT {
+		sc += ":real-transport"
+		r.Count("upstream_dials_real_transport", int64(atomic.LoadInt32(&w.upstreamDials)))
 	}
 	r.Class("gates:" + strings.Join(ps, ",") + ":order=" + strings.Join(os, "") + ":late=" + c.Late + sc)
 	r.Count("events_observed", atomic.LoadInt64(&w.seq))
@@ -1233,6 +1406,9 @@ func permutations(xs []int) [][]int {
 
 // sanitize drops attribute combinations that make no sense at a point.
 func sanitize(a attr, pt int) attr {
+	if pt == ptMidHead {
+		return attr{Pipe: a.Pipe} // the partial head may be that of a pipelined second request
+	}
 	if pt < ptReqMod {
 		return attr{}
 	}
@@ -1270,6 +1446,9 @@ func allGateCases(r *vh.Run, thorough bool) []ccase {
 			if pt >= ptReqMod && rng.Intn(2) == 0 {
 				a = attrCombos[rng.Intn(len(attrCombos))]
 			}
+			if pt == ptMidHead {
+				a.Pipe = rng.Intn(2) == 0
+			}
 			if pt == ptWriting {
 				a.Stall = rng.Intn(2) == 0
 			}
@@ -1288,6 +1467,30 @@ func allGateCases(r *vh.Run, thorough bool) []ccase {
 				b = sanitize(b, pt)
 				cs = append(cs, ccase{Kind: "gates", Points: []int{pt}, Order: []int{0}, Attrs: []attr{b}})
 			}
+		}
+	}
+	// mid-head of a pipelined second request, alone and next to every other point
+	cs = append(cs, ccase{Kind: "gates", Points: []int{ptMidHead}, Order: []int{}, Attrs: []attr{{Pipe: true}}})
+	for p1 := ptIdle; p1 <= ptWriting; p1++ {
+		o := []int{}
+		if p1 >= ptReqMod {
+			o = []int{1}
+		}
+		cs = append(cs, ccase{Kind: "gates", Points: []int{ptMidHead, p1}, Order: o, Attrs: []attr{{Pipe: true}, {}}})
+	}
+	// the proxy's own http.Transport with cold upstream connections to a harness origin
+	for pt := ptReqMod; pt <= ptWriting; pt++ {
+		for _, a := range []attr{{}, {Body: "large"}, {Body: "slow"}, {RTFail: true}, {Pipe: true}, {Stall: true, Small: true}} {
+			b := sanitize(a, pt)
+			if b != a {
+				continue
+			}
+			cs = append(cs, ccase{Kind: "gates", RealRT: true, Points: []int{pt}, Order: []int{0}, Attrs: []attr{b}})
+		}
+	}
+	for p0 := ptReqMod; p0 <= ptResMod; p0++ {
+		for p1 := ptReqMod; p1 <= ptResMod; p1++ {
+			cs = append(cs, ccase{Kind: "gates", RealRT: true, Points: []int{p0, p1}, Order: []int{(p0 + p1) % 2, 1 - (p0+p1)%2}, Attrs: []attr{{}, {}}})
 		}
 	}
 	// slow-close variants: every tuple for 1-2 connections, every 8th for 3
